@@ -119,7 +119,9 @@ func (h *statusSessionHandler) handleStatusRequest(pc *proto.PacketContext) {
 
 	log := h.log
 	if h.resolvePingResponse == nil {
-		e.ping = newInitialPing(h.proxy, pc.Protocol)
+		// The connection's protocol is the one the client announced; the packet
+		// context carries the fallback registry's protocol for unknown versions.
+		e.ping = newInitialPing(h.proxy, h.conn.Protocol())
 	} else {
 		var err error
 		var res *packet.StatusResponse
